@@ -187,6 +187,20 @@ func (g *gen) genRemove(s *Ref) *Op {
 		}
 		return &Op{Kind: "remove", Type: g.pick(uTypes)}
 	}
+	if g.rng.Intn(6) == 0 {
+		// key values that are not names: nil addresses the unkeyed registration, the others nothing
+		t := g.pick(uTypes)
+		var present []string
+		for _, u := range uTypes {
+			if _, ok := s.svc[ident{T: u}]; ok {
+				present = append(present, u)
+			}
+		}
+		if len(present) > 0 && g.rng.Intn(4) > 0 {
+			t = g.pick(present)
+		}
+		return &Op{Kind: "removeKeyed", Type: t, KeyKind: g.pick([]string{"nil", "empty", "empty", "int", "struct"})}
+	}
 	var present []ident
 	for id := range s.svc {
 		if id.Key != "" {
